@@ -206,23 +206,36 @@ func RefVoteWeight(sv StakeView, v UVote) (uint64, error) {
 	if !rec.VoteID.Verify(id, v.R, v.Sig) {
 		return 0, fmt.Errorf("bad one-time signature")
 	}
-	seedRound := v.R.Round.SubSaturate(basics.Round(proto.SeedLookback))
+	w, err := refCredWeight(sv, rec, v.R.Sender, v.R.Round, v.R.Period, v.R.Step, v.Cred.Proof)
+	if err != nil {
+		return 0, err
+	}
+	if w == 0 {
+		return 0, fmt.Errorf("not selected (weight 0)")
+	}
+	return w, nil
+}
+
+// refCredWeight: committee weight of sender at (round, period, step) proven by a VRF proof (0 = not selected).
+func refCredWeight(sv StakeView, rec basics.OnlineAccountData, sender basics.Address, r basics.Round, p, step uint64, proof crypto.VrfProof) (uint64, error) {
+	proto := params()
+	seedRound := r.SubSaturate(basics.Round(proto.SeedLookback))
 	seed, ok := sv.RefSeed(seedRound)
 	if !ok {
 		return 0, fmt.Errorf("seed for round %d unknown to the reference", seedRound)
 	}
-	sel := selectorM{Seed: seed, Round: v.R.Round, Period: v.R.Period, Step: v.R.Step}
-	okv, out := rec.SelectionID.Verify(v.Cred.Proof, sel)
+	sel := selectorM{Seed: seed, Round: r, Period: p, Step: step}
+	okv, out := rec.SelectionID.Verify(proof, sel)
 	if !okv {
 		return 0, fmt.Errorf("bad VRF proof")
 	}
 	var h crypto.Digest
 	if proto.CredentialDomainSeparationEnabled {
-		h = crypto.HashObj(hashableCredM{RawOut: out, Member: v.R.Sender})
+		h = crypto.HashObj(hashableCredM{RawOut: out, Member: sender})
 	} else {
-		h = crypto.Hash(append(out[:], v.R.Sender[:]...))
+		h = crypto.Hash(append(out[:], sender[:]...))
 	}
-	size, _ := stepCommittee(proto, v.R.Step)
+	size, _ := stepCommittee(proto, step)
 	money := rec.VotingStake().Raw
 	total := sv.RefTotal().Raw
 	var w uint64
@@ -232,9 +245,6 @@ func RefVoteWeight(sv StakeView, v UVote) (uint64, error) {
 		} else {
 			w = sortition.Select(money, total, float64(size), sortition.Digest(h))
 		}
-	}
-	if w == 0 {
-		return 0, fmt.Errorf("not selected (weight 0)")
 	}
 	return w, nil
 }
